@@ -1032,6 +1032,15 @@ def c01r(ctx):
     o.sites = len(cmps)
     if len(cmps) < 2:
         ctx.fail(o, "(program)", "expected >= 2 id comparisons in CalleeOrder::abort_callee (Single and Unordered arms), found %d" % len(cmps))
+    ab = [x for x in bodies if x.name == "CalleeOrder::abort_callee"]
+    if len(ab) == 1:
+        rm_top = [s_ for s_ in ab[0].calls_to(r"alloc::vec::Vec::<T(, A)?>::(remove|swap_remove)$")]
+        edges_ = [(sb, tb, v) for sb, tb, v, c in df.variant_edges(ab[0], "database::NodeDependency") if v != "otherwise"]
+        o.sites += len(rm_top)
+        for sb, tb, v in edges_:
+            mine = {n_ for n_ in ab[0].reachable([tb], removed_nodes=[sb]) if n_ == tb or ab[0].edge_dominates((sb, tb), n_)}
+            if not any(s_.bb in mine for s_ in rm_top):
+                ctx.fail(o, Site(ab[0], tb, 0), "CalleeOrder::abort_callee finds the aborted callee in a %s dependency but removes nothing" % ("Single" if int(v) == 0 else "Unordered"))
     for x, s_ in cmps:
         if s_.node["fn"]["path"].endswith("::ne"):
             ctx.fail(o, s_, "CalleeOrder::abort_callee selects an entry that is NOT the aborted callee: a cancelled call removes another dependency from the recorded order")
